@@ -7,11 +7,11 @@
    directory content is C08_restart_spec (status, score and payload of every kept trial are those of its file: a durably
    recorded end never changes); at every operation boundary the restart equals save+reload (C08_boundary); the images a
    crash inside end_trial can leave and the one window in which the two files disagree are C08_end_images/C08_end_window.
-   Not a theorem (explored by the harness): termination of the resumed tuner loop, which is C19's search_terminates
-   started from the rebuilt state. *)
+   C08_resumed_search_terminates: the tuner loop resumed from any such state ends within (max_retries+1)*max_trials runs.
+   Outside the model: several workers crashing independently, non-atomic file writes. *)
 From Coq Require Import List ZArith Bool.
 Import ListNotations.
-From KT Require Import Lifecycle LInv Crash CrashProofs CrashAll.
+From KT Require Import Lifecycle LInv LProps Tuner TunerTerm Crash CrashProofs CrashAll CrashTerm.
 
 Theorem C08_any_crash_point : forall (A V Sc : Type) (vdef : V) (score_fn : V -> scored Sc)
     (populate : A -> list (trial V Sc) -> bool -> tid -> A * status * V) (hook_end hook_end_abort : A -> tid -> V -> A)
@@ -20,9 +20,22 @@ Theorem C08_any_crash_point : forall (A V Sc : Type) (vdef : V) (score_fn : V ->
   reachable_dir vdef score_fn populate hook_end hook_end_abort hook_reload reissue c a0 d ->
   match recover hook_reload d with
   | None => fresh_dir d
-  | Some t => Inv t /\ ongoing t = []
+  | Some t => Inv t /\ RInv c t /\ ongoing t = []
   end.
 Proof. exact @crash_any_point. Qed.
+
+(* ... and the resumed tuner loop ends within the run budget (single worker: populate_space answers RUNNING or STOPPED) *)
+Theorem C08_resumed_search_terminates : forall (A V Sc : Type) (vdef : V) (score_fn : V -> scored Sc)
+    (populate : A -> list (trial V Sc) -> bool -> tid -> A * status * V) (hook_end hook_end_abort : A -> tid -> V -> A)
+    (hook_reload : A -> A) (reissue : V -> V),
+  (forall a ts id, snd (fst (populate a ts false id)) = RUNNING \/ snd (fst (populate a ts false id)) = STOPPED) ->
+  forall (c : cfg) (a0 : A) (n : nat) (d : @dstate A V Sc) (t : @ostate A V Sc) (fuel : nat) (script : list (@attempt V)),
+  abort_early c = false -> max_trials c = Some n ->
+  reachable_dir vdef score_fn populate hook_end hook_end_abort hook_reload reissue c a0 d ->
+  recover hook_reload d = Some t ->
+  n * S (max_retries c) - truns (trials t) < fuel ->
+  snd (fst (search vdef score_fn populate hook_end hook_end_abort reissue fuel c t script)) <> OutOfFuel.
+Proof. exact @resumed_search_terminates. Qed.
 
 Theorem C08_budget : forall (A V Sc : Type) (vdef : V) (score_fn : V -> scored Sc)
     (populate : A -> list (trial V Sc) -> bool -> tid -> A * status * V) (hook_end hook_end_abort : A -> tid -> V -> A)
@@ -39,13 +52,13 @@ Theorem C08_first_crash : forall (A V Sc : Type) (vdef : V) (score_fn : V -> sco
   abort_early c = false -> no_reload ops = true ->
   match crash_at vdef score_fn populate hook_end hook_end_abort hook_reload reissue c a0 ops k with
   | None => k < 2
-  | Some t => 2 <= k /\ Inv t /\ ongoing t = []
+  | Some t => 2 <= k /\ Inv t /\ RInv c t /\ ongoing t = []
   end.
 Proof. exact @crash_at_ok. Qed.
 
 (* the invariant is about the directory: the restart from ANY directory satisfying it yields an Inv state *)
-Theorem C08_dirok_recovers : forall (A V Sc : Type) (vdef : V) (score_fn : V -> scored Sc) (hook_reload : A -> A) (reissue : V -> V) (d : @dstate A V Sc),
-  DirOK d -> exists t : @ostate A V Sc, recover hook_reload d = Some t /\ Inv t /\ ongoing t = [].
+Theorem C08_dirok_recovers : forall (A V Sc : Type) (vdef : V) (score_fn : V -> scored Sc) (hook_reload : A -> A) (reissue : V -> V) (c : cfg) (d : @dstate A V Sc),
+  DirOK (max_retries c) d -> exists t : @ostate A V Sc, recover hook_reload d = Some t /\ Inv t /\ RInv c t /\ ongoing t = [].
 Proof. exact @recover_inv. Qed.
 
 (* non-vacuity: two trials started, the first ended COMPLETED, crash right after its trial file was written (write 7):
@@ -98,6 +111,7 @@ Theorem C08_end_window : forall (A V Sc : Type) (hook_reload : A -> A) (s : @ost
 Proof. exact @end_crash_after_trial_file. Qed.
 
 Print Assumptions C08_any_crash_point.
+Print Assumptions C08_resumed_search_terminates.
 Print Assumptions C08_budget.
 Print Assumptions C08_first_crash.
 Print Assumptions C08_dirok_recovers.
